@@ -94,13 +94,17 @@ static int mk_desc(int d)
 		memset(&a, 0, sizeof a);
 		a.sin_family = AF_INET; a.sin_addr.s_addr = htonl(INADDR_LOOPBACK);
 		socklen_t sl = sizeof a;
-		if (l < 0 || bind(l, (struct sockaddr *)&a, sizeof a) || listen(l, 1) ||
-		    getsockname(l, (struct sockaddr *)&a, &sl)) return -1;
+		if (l < 0) return -1;
+		if (bind(l, (struct sockaddr *)&a, sizeof a) || listen(l, 1) ||
+		    getsockname(l, (struct sockaddr *)&a, &sl)) { close(l); return -1; }
 		w = socket(AF_INET, SOCK_STREAM, 0);
-		if (w < 0 || connect(w, (struct sockaddr *)&a, sizeof a)) return -1;
+		if (w < 0 || connect(w, (struct sockaddr *)&a, sizeof a)) {
+			if (w >= 0) close(w);
+			close(l); return -1;
+		}
 		r = accept(l, NULL, NULL);
 		close(l);
-		if (r < 0) return -1;
+		if (r < 0) { close(w); return -1; }
 		int one = 1;
 		setsockopt(w, IPPROTO_TCP, TCP_NODELAY, &one, sizeof one);
 	}
@@ -355,7 +359,11 @@ static void do_run(int type)
 	if (g_tr) g_tr[0] = 0;
 	for (int d = 0; d < g_nd; d++) {
 		g_peer[d] = -1;
-		if (mk_desc(d)) { printf("env-fail desc %d errno %d\n", d, errno); return; }
+		int tries = 0;
+		while (mk_desc(d)) {              /* transient: ephemeral ports / backlog under load */
+			if (++tries > 200) { printf("env-fail desc %d errno %d\n", d, errno); return; }
+			usleep(20000);
+		}
 		g_pwr[d] = 1;
 		muggle_ev_ctx_init(&g_ctx[d], RFD(d), (void *)(intptr_t)d);
 	}
@@ -375,6 +383,13 @@ static void do_run(int type)
 	g_ev = NULL;
 	muggle_evloop_delete(ev);
 	for (int d = 0; d < g_nd; d++) {
+		/* TCP: reset instead of FIN at clean-up, so that thousands of cases do not exhaust the
+		 * ephemeral ports with TIME_WAIT sockets */
+		struct linger lg = { 1, 0 };
+		if (g_kind[d] == K_TCP) {
+			setsockopt(RFD(d), SOL_SOCKET, SO_LINGER, &lg, sizeof lg);
+			if (g_peer[d] >= 0) setsockopt(g_peer[d], SOL_SOCKET, SO_LINGER, &lg, sizeof lg);
+		}
 		close(RFD(d));
 		if (g_peer[d] >= 0) close(g_peer[d]);
 	}
